@@ -21,8 +21,8 @@ def corpus():
             if k.startswith("reg_"): _CORPUS[k[4:]] = regdsl.decode(bytes.fromhex(v))
     return _CORPUS
 
-def syn_path(s): return parse_kind("Path", lex(s))
-def syn_type_path(s): return parse_kind("TypePath", lex(s))
+def syn_path(s): return parse_kind("Path", to_engine_tokens(tokenize(s)))
+def syn_type_path(s): return parse_kind("TypePath", to_engine_tokens(tokenize(s)))
 
 class Settings:
     """ordered list of directives, applicable both to the engine and to the replay binary"""
